@@ -8,7 +8,7 @@ import sys
 import tempfile
 
 HERE = os.path.dirname(os.path.dirname(os.path.abspath(__file__)))
-CHECKS = {"C06-2": ["C05", "C02"], "C15-2": ["C20"]}
+CHECKS = {"C06-2": ["C05", "C02"], "C15-2": ["C20"], "C02-r2-2": ["C07"], "C09-r2-2": ["C09", "C08"]}
 
 
 def sh(cmd, **kw):
